@@ -271,6 +271,9 @@ func familyStream(weights map[string]int, hostile bool, quickN, thoroughN, lengt
 				if weights["hash"] >= 10 && g.chance(0.07) {
 					ops = append(ops, g.floatMacro(1, true)...)
 				}
+				if weights["list"] >= 10 && g.chance(0.08) {
+					ops = append(ops, g.lposMacro(1)...)
+				}
 				if weights["bits"] >= 10 && g.chance(0.1) {
 					ops = append(ops, g.bitposMacro(1)...)
 				}
